@@ -61,6 +61,31 @@ pub fn specs() -> Vec<PropertySpec> {
             stubbed_components: vec!["storage (corruptions applied to the tree before the run)"],
         },
         PropertySpec {
+            id: "C06",
+            level: "exploration",
+            plans: vec![
+                Plan { engine: "e2", variant: "arte", quick: 1_200, thorough: 80_000, asan: false },
+                Plan { engine: "e2", variant: "c17", quick: 150, thorough: 5_000, asan: false },
+            ],
+            rule: "every .map listed by a successful simulated generate (all three modes, randomised layouts and options, rich schemas split over 1-3 files with extensions, 1-6 operation files with imports; also after re-runs and crash-re-runs in the c17 class) is decoded with an independent VLQ reader and judged segment by segment against the generated text and the GraphQL inputs on the simulated file system",
+            assumptions: vec!["independent VLQ decoder, lexer and header scanner (indep.rs)", "columns are UTF-16 units; the workload keeps non-ASCII to the BMP"],
+            real_components: vec!["nitrogql-cli binary (printer, sourcemap-writer, generate.rs)"],
+            stubbed_components: vec!["none for this check; faults only in the c17 class"],
+        },
+        PropertySpec {
+            id: "C20",
+            level: "exploration",
+            plans: vec![
+                Plan { engine: "e2", variant: "arte", quick: 1_200, thorough: 80_000, asan: false },
+                Plan { engine: "e2", variant: "c13", quick: 400, thorough: 20_000, asan: false },
+                Plan { engine: "e1", variant: "l1", quick: 6_000, thorough: 300_000, asan: false },
+            ],
+            rule: "referential integrity on the simulated file system: schema import specifier of every operation declaration / resolvers file, every sources entry and sourceMappingURL, every #import target (CLI diagnostics and the loader's required-file set) for randomised layouts with outputs above, below and beside inputs and several spellings of each import path",
+            assumptions: vec!["independent path normaliser (indep.rs)", "TS->JS extension table inverted by the oracle"],
+            real_components: vec!["nitrogql-cli binary", "loader ABI"],
+            stubbed_components: vec!["bundler host (e1)"],
+        },
+        PropertySpec {
             id: "C13",
             level: "exploration",
             plans: vec![
